@@ -24,3 +24,30 @@ package utils
 //@   ensures (len(s) == 0) == (len(result) == 0)
 //@   loop 1 invariant fresh(out)
 //@   loop 1 decreases len(rs) - rangeindex
+
+// string sets are maps
+//@ func (Set).Has
+//@   props C14
+//@   nopanic
+//@   inline
+//@ func (Set).Add
+//@   props C14
+//@   inline
+
+// smallest / largest of a non-empty list
+//@ func Mins
+//@   props C14
+//@   nopanic
+//@   requires len(values) >= 1
+//@   modifies nothing
+//@   ensures forall(k, 0, len(values), result <= values[k]) && exists(k, 0, len(values), result == values[k])
+//@   loop 1 invariant rangeindex < len(values) && forall(k, 0, rangeindex + 1, min <= values[k]) && exists(k, 0, len(values), min == values[k])
+//@   loop 1 decreases len(values) - rangeindex
+//@ func Maxs
+//@   props C14
+//@   nopanic
+//@   requires len(values) >= 1
+//@   modifies nothing
+//@   ensures forall(k, 0, len(values), result >= values[k]) && exists(k, 0, len(values), result == values[k])
+//@   loop 1 invariant rangeindex < len(values) && forall(k, 0, rangeindex + 1, max >= values[k]) && exists(k, 0, len(values), max == values[k])
+//@   loop 1 decreases len(values) - rangeindex
